@@ -1,9 +1,12 @@
 from ..framework import Spec
 from ..ties_sys import layout_tie, layout_isa_tie, layout_oracle, layout_scenario_tie
 from ..scenarios import gen_label_scenario
+from ..ties_lines import line_parts_tie
 
-SPEC = Spec(pid='C18', coq_needs=['Base', 'Program', 'Match', 'ProgramIsa', 'Properties/C18'],
+SPEC = Spec(pid='C18', coq_needs=['Base', 'Program', 'Match', 'ProgramIsa', 'Lines', 'LinesProofs', 'Properties/C18'],
             ties=[layout_tie(), layout_isa_tie(),
+                  # the line splitter (statement text / comment) of Lines.v against the real reader
+                  line_parts_tie(),
                   # a label in front of the statement it labels vs on its own line: which region the statement belongs to
                   layout_scenario_tie('label_lines', gen_label_scenario, 150, 2500)],
             oracles=[layout_oracle()])
